@@ -3,7 +3,7 @@
    Definitions C11_*_statement of Proofs/Idna_Hyp.v; see theorem_notes in tools/props_d/C11.py. *)
 From RU Require Import Base.Prelude Base.Utf8 Base.U32_c13 Gen.Tables Model.Punycode Model.Uts46
   Proofs.Idna_Sim Proofs.Idna_Api Proofs.Idna_Known Proofs.Idna_Hyp Proofs.Idna_Tables Proofs.Idna_Redisc
-  Proofs.Idna_C10_Deny Proofs.Idna_C10_Prefix Proofs.Idna_C10_Inner Proofs.Idna_Mark Proofs.Idna_MarkWalk.
+  Proofs.Idna_C10_Deny Proofs.Idna_C10_Prefix Proofs.Idna_C10_Inner Proofs.Idna_Mark Proofs.Idna_MarkWalk Proofs.Idna_MarkFffd.
 
 (* the core: for EVERY adapter, the fail-fast run of process_inner returns early exactly when the
    marking run sets had_errors, and otherwise the two runs produce the same buffers *)
@@ -73,6 +73,22 @@ Proof. exact mark_he_exact. Qed.
 Check C11_had_errors_exact : forall A cfg hy deny d ptu bd he db ap,
   process_inner A cfg false hy deny d = IRes ptu bd he db ap -> ptu <> len d -> he = existsb is_fffd db.
 Print Assumptions C11_had_errors_exact.
+
+(* THE U+FFFD CLAUSES, IN FULL, for EVERY adapter (no premise), every byte string, every deny list, hyphen mode and
+   output policy.  (1) C11_err_fffd_statement: outside Known_C11, an error reported by to_user_interface / to_unicode
+   is visible as a U+FFFD in the returned text.  (2) C11_ok_no_fffd_statement: a text returned without error contains
+   no U+FFFD. *)
+Theorem C11_err_fffd : forall A cfg, C11_err_fffd_statement A cfg.
+Proof. exact c11_err_fffd_full. Qed.
+Check C11_err_fffd : forall A cfg d deny hy p, bytes d -> valid_deny deny -> Known_C11 A cfg d deny hy = false ->
+  ui_err (to_user_interface A cfg d deny hy p) = true -> In FFFD (ui_text (to_user_interface A cfg d deny hy p)).
+Print Assumptions C11_err_fffd.
+
+Theorem C11_ok_no_fffd : forall A cfg, C11_ok_no_fffd_statement A cfg.
+Proof. exact c11_ok_no_fffd_full. Qed.
+Check C11_ok_no_fffd : forall A cfg d deny hy p b t, bytes d -> valid_deny deny ->
+  to_user_interface A cfg d deny hy p = UI b t false -> ~ In FFFD t.
+Print Assumptions C11_ok_no_fffd.
 
 (* F-C11-2: inside Known_C11 the verdicts differ (no debug assertions) / the marking run panics (with) *)
 Theorem C11_same_verdict_refuted : exists A d deny hy p,
